@@ -904,6 +904,28 @@ func runC12(c *ctx) {
 			}
 		}
 	}
+	// the width argument of the numeric factories is 1, 2, 4 or 8 (4 or 8 for floats) and nothing else
+	for _, w := range []int{0, -1, -8, 3, 5, 6, 7, 9, 16, 32, 64, 256, 257, 1 << 32, 1<<32 + 1, -(1 << 63)} {
+		for name, f := range map[string]func(){
+			"int":        func() { _ = ast.NewIntNode(w, 1, 2) },
+			"uint":       func() { _ = ast.NewUintNode(w, 0, 0) },
+			"uint-empty": func() { _ = ast.NewUintNode(w) },
+			"int-var":    func() { _ = ast.NewIntNode(w, "v") },
+			"float":      func() { _ = ast.NewFloatNode(w, 1.5) },
+		} {
+			o := real.Try(f)
+			c.NoteBulk(1, 1)
+			c.Class("num/width-argument")
+			if !o.Panicked {
+				c.Violation("C12/num/width-accepted/"+name, fmt.Sprintf("%s factory accepted the width %d", name, w), c12Case{Op: "width", Kind: name, Ints: []int{w}})
+			}
+		}
+	}
+	for _, w := range []int{1, 2} {
+		if o := real.Try(func() { _ = ast.NewFloatNode(w, 1.5) }); !o.Panicked {
+			c.Violation("C12/num/width-accepted/float", fmt.Sprintf("float factory accepted the width %d", w), c12Case{Op: "width", Kind: "float", Ints: []int{w}})
+		}
+	}
 	// one header parameter at a time over values that are far out of range but alias a valid value modulo 2^8, 2^16,
 	// 2^32 (a narrower field type must not turn them into valid ones), the others valid
 	{
@@ -926,7 +948,7 @@ func runC12(c *ctx) {
 			}
 		}
 	}
-	c.Required = []string{"msg/far-out-of-range-parameter", "num/out-of-domain-among-neighbours", "num/in-domain", "num/out-of-domain", "num/int-into-float", "float/non-finite", "float/overflow", "float/in-range", "binstr/valid", "binstr/invalid", "ascii/non-ascii-unicode", "ascii/invalid-utf8", "varname/valid", "varname/invalid", "varname/ellipsis", "msg/NewDataMessage", "msg/NewHSMSDataMessage", "msg/SetSessionID", "msg/fill-after-stamp", "structure/small-trees-encoded-side-by-side"}
+	c.Required = []string{"msg/far-out-of-range-parameter", "num/width-argument", "num/out-of-domain-among-neighbours", "num/in-domain", "num/out-of-domain", "num/int-into-float", "float/non-finite", "float/overflow", "float/in-range", "binstr/valid", "binstr/invalid", "ascii/non-ascii-unicode", "ascii/invalid-utf8", "varname/valid", "varname/invalid", "varname/ellipsis", "msg/NewDataMessage", "msg/NewHSMSDataMessage", "msg/SetSessionID", "msg/fill-after-stamp", "structure/small-trees-encoded-side-by-side"}
 }
 
 func replayC12(c *ctx, raw json.RawMessage) {
